@@ -191,6 +191,32 @@ Proof. exact values_are_C01. Qed.
 Theorem C09_mini_ser_is_C01 : forall v t, mini_ser v t = c01_vser (mval_cell v) (mty_ctype t).
 Proof. exact mini_ser_is_C01. Qed.
 
+(* ---- UTF-8 with an independent specification (deepening round 3) -------------------------------
+   [Cql.utf8_valid] (used by the specification parser and by [req_wf]) accepts exactly the byte
+   sequences of Unicode table 3-7 / RFC 3629 section 4 ([utf8_wf], one constructor per row), and
+   those are exactly the encodings of sequences of Unicode scalar values by the four UTF-8 forms of
+   RFC 3629 section 3 ([scalar], [utf8_enc], [utf8_of]). *)
+Theorem C09_utf8_valid_iff_wf : forall b, Cql.utf8_valid b = true <-> utf8_wf b.
+Proof. exact utf8_valid_iff_wf. Qed.
+Theorem C09_utf8_wf_iff_scalars : forall b,
+  utf8_wf b <-> exists cs, Forall scalar cs /\ b = utf8_of cs.
+Proof. exact utf8_wf_iff_scalars. Qed.
+(* the premise of the round-trip theorems is the premise stated with that specification *)
+Theorem C09_req_wf_iff_rfc : forall r, req_wf r <-> req_wf_rfc r.
+Proof. exact req_wf_iff_rfc. Qed.
+(* C09_parse_encode restated: a request whose texts are UTF-8 encodings of scalar-value sequences
+   (and whose numeric fields are in their Rust ranges) is read back from its frame *)
+Theorem C09_parse_encode_rfc : forall cd alg tr r f mid,
+  req_wf_rfc r -> mid_matches mid r -> encode_request cd None tr r = Ok f ->
+  parse_frame cd alg mid f = Ok (mkHeader 4 (if tr then 2 else 0) 0 (opcode r) (blen f - 9), r).
+Proof. exact parse_encode_rfc. Qed.
+(* soundness of the specification parser for ANY bytes: every statement text / STARTUP string of a
+   request it returns is the UTF-8 encoding of a sequence of Unicode scalar values -- so a frame
+   that [frame_says] accepts carries well-formed UTF-8 in that sense *)
+Theorem C09_parser_texts_rfc : forall cd alg mid f h r,
+  parse_frame cd alg mid f = Ok (h, r) -> req_texts_rfc r.
+Proof. exact parser_texts_rfc. Qed.
+
 (* ---- non-vacuity: concrete requests meeting the hypotheses, with non-trivial outputs ---- *)
 Definition ex_codec : codec :=
   mkCodec (fun b => b) (fun b _ => Some b) (fun b => Some b) (fun b => Some b).
@@ -329,6 +355,30 @@ Example C09_anchor_predicates :
 Proof. repeat split; vm_compute; reflexivity. Qed.
 
 Definition ex_cols : list (bytes * mty) := [([97], TInt); ([98], TText); ([97], TInt)].   (* a, b, a *)
+Example C09_anchor_utf8 :
+  (* U+0024, U+00A2, U+20AC, U+10348, U+D7FF, U+E000, U+10FFFF in the four forms *)
+  utf8_of [36; 162; 8364; 66376] = [36; 194; 162; 226; 130; 172; 240; 144; 141; 136] /\
+  utf8_enc 55295 = [237; 159; 191] /\ utf8_enc 57344 = [238; 128; 128] /\ utf8_enc 1114111 = [244; 143; 191; 191] /\
+  scalar 55295 /\ ~ scalar 55296 /\ ~ scalar 57343 /\ scalar 57344 /\ scalar 1114111 /\ ~ scalar 1114112 /\
+  utf8_wf [36; 194; 162; 226; 130; 172; 240; 144; 141; 136] /\
+  (* rejected: overlong C0 80 and E0 80 80, surrogate ED A0 80, above U+10FFFF F4 90 80 80, lone tail, truncated *)
+  ~ utf8_wf [192; 128] /\ ~ utf8_wf [224; 128; 128] /\ ~ utf8_wf [237; 160; 128] /\
+  ~ utf8_wf [244; 144; 128; 128] /\ ~ utf8_wf [128] /\ ~ utf8_wf [226; 130] /\
+  req_wf_rfc ex_query /\ req_texts_rfc ex_batch.
+Proof.
+  assert (R : forall b, Cql.utf8_valid b = false -> ~ utf8_wf b).
+  { intros b E H. apply (proj2 (C09_utf8_valid_iff_wf b)) in H. congruence. }
+  assert (A : forall b, Cql.utf8_valid b = true -> utf8_wf b) by (intros b; apply (proj1 (C09_utf8_valid_iff_wf b))).
+  assert (W : forall r, req_wf r -> req_wf_rfc r) by (intros r; apply (proj1 (C09_req_wf_iff_rfc r))).
+  repeat match goal with |- _ /\ _ => split end.
+  all: try (vm_compute; reflexivity).
+  all: try (unfold scalar; lia).
+  all: try (apply R; vm_compute; reflexivity).
+  all: try (apply A; vm_compute; reflexivity).
+  - apply W. cbv. repeat split; discriminate.
+  - assert (Q : req_wf ex_batch) by (cbv; repeat split; try discriminate; repeat constructor).
+    exact (proj1 (W _ Q)).
+Qed.
 Example C09_anchor_C01 :
   c01_vser (Cql.CVal (Cql.CInt 7)) (Cql.TNative Cql.NInt) = Some (CVal [0; 0; 0; 7]) /\
   c01_vser (Cql.CVal (Cql.CInt 7)) (Cql.TNative Cql.NText) = None /\
@@ -376,5 +426,10 @@ Print Assumptions C09_values_in_order.
 Print Assumptions C09_bind_row_total.
 Print Assumptions C09_row_count_mismatch.
 Print Assumptions C09_values_in_frame.
+Print Assumptions C09_utf8_valid_iff_wf.
+Print Assumptions C09_utf8_wf_iff_scalars.
+Print Assumptions C09_req_wf_iff_rfc.
+Print Assumptions C09_parse_encode_rfc.
+Print Assumptions C09_parser_texts_rfc.
 Print Assumptions C09_values_are_C01.
 Print Assumptions C09_mini_ser_is_C01.
